@@ -143,6 +143,52 @@ func Drive(p *Property, o DriveOpts) int {
 		}
 	}
 
+	// statement coverage of the code under test (evidence only): the quick-size
+	// case lists once more on a -cover build of the worker
+	coverText := ""
+	if cb := os.Getenv("VERIF_COVER_BIN"); cb != "" && o.Only == "" {
+		covDir := filepath.Join(work, "cov")
+		os.MkdirAll(covDir, 0o755)
+		os.Setenv("GOCOVERDIR", covDir)
+		WorkerBinary = cb
+		scratch := NewAgg()
+		for i := range p.Families {
+			f := &p.Families[i]
+			n := f.Count("quick")
+			per := (n + o.Par - 1) / o.Par
+			if per < 1 {
+				per = 1
+			}
+			var wg3 sync.WaitGroup
+			k := 0
+			for lo := 0; lo < n; lo += per {
+				hi := lo + per
+				if hi > n {
+					hi = n
+				}
+				k++
+				wg3.Add(1)
+				go func(lo, hi, k int) {
+					defer wg3.Done()
+					runChunk(p, chunk{f, lo, hi}, o, work, fmt.Sprintf("cov_%d", k), scratch, &mu)
+				}(lo, hi, k)
+			}
+			wg3.Wait()
+		}
+		WorkerBinary = ""
+		os.Unsetenv("GOCOVERDIR")
+		if out, err := exec.Command("go", "tool", "covdata", "percent", "-i", covDir).CombinedOutput(); err == nil {
+			for _, l := range strings.Split(string(out), "\n") {
+				f := strings.Fields(l)
+				if len(f) >= 3 && strings.HasPrefix(f[0], "github.com/paulsonkoly/calc/") && f[1] == "coverage:" {
+					coverText += strings.TrimPrefix(f[0], "github.com/paulsonkoly/calc/") + " " + f[2] + "; "
+				}
+			}
+		}
+		agg.Count["coverage_replay_cases"] = scratch.Cases
+	}
+	agg.CoverText = coverText
+
 	// verdict lines
 	viol := 0
 	outDir := o.VerifDir
